@@ -755,6 +755,18 @@ func init() {
 				if r.Intn(2) == 0 {
 					y.Neg(y)
 				}
+				if r.Intn(3) == 0 {
+					// exponents that vanish modulo the group orders (the CRT code reduces exponents modulo
+					// p-1 / p(p-1)), with bases that are not units
+					pm, qm := new(big.Int).Sub(p, one), new(big.Int).Sub(q, one)
+					y = vh.Pick(r, []*big.Int{pm, qm, new(big.Int).Mul(pm, qm), new(big.Int).Mul(p, pm), new(big.Int).Mul(q, qm),
+						new(big.Int).Mul(new(big.Int).Mul(p, pm), new(big.Int).Mul(q, qm))})
+					y = new(big.Int).Mul(y, big.NewInt(int64(1+r.Intn(3))))
+					if kind <= 2 {
+						f := vh.Pick(r, []*big.Int{p, q, new(big.Int).Mul(p, q)})
+						x = bmod(new(big.Int).Mul(f, big.NewInt(int64(1+r.Intn(1000)))), n)
+					}
+				}
 			}
 			return &tcase{args: []*big.Int{zi(kind), p, q, x, y}, mode: r.Intn(2)}
 		}
